@@ -267,3 +267,152 @@ Proof.
     + destruct H as [<-|[]]; exact I.
     + destruct H as [<-|[<-|H]]; try exact I. apply IH, H.
 Qed.
+
+(** ** whole comparison bodies of enums, and the hidden `Eq` assertion *)
+Lemma r_member_Bal m : Bal (r_member m).
+Proof. apply Bal_plain. intros t. apply r_member_no_brackets. Qed.
+
+Lemma ctor_args_Bal sh fs vals : Forall Bal vals -> Bal (ctor_args sh fs vals).
+Proof.
+  intros H. destruct sh; cbn [ctor_args]; [| |apply Bal_nil].
+  - apply Bal_tbrace, Bal_concat, Forall_map, Forall_forall. intros [f v] Hin.
+    apply in_combine_r in Hin. rewrite Forall_forall in H. specialize (H v Hin).
+    unfold comma. apply Bal_app; [apply r_member_Bal|]. apply Bal_app; [apply Bal_one; exact I|].
+    apply Bal_app; [exact H | apply Bal_one; exact I].
+  - apply Bal_tparen. unfold term_by. apply Bal_concat, Forall_map. eapply Forall_impl; [|exact H].
+    intros v Hv. unfold comma. apply Bal_app; [exact Hv | apply Bal_one; exact I].
+Qed.
+
+Lemma make_pat_Bal sp prefix arm : Bal sp -> Bal (make_pat sp prefix arm).
+Proof.
+  intros Hs. destruct arm as [[v sh] fs]. cbn [make_pat]. apply Bal_app; [exact Hs|].
+  apply Bal_app; [apply Bal_plain; intros t [<-|[<-|[]]]; exact I|].
+  apply ctor_args_Bal. unfold binders. apply Forall_map, Forall_forall. intros f _. apply Bal_one. exact I.
+Qed.
+
+Lemma make_pat_wildcard_Bal arm : Bal (make_pat_wildcard arm).
+Proof.
+  destruct arm as [[v sh] fs]. cbn [make_pat_wildcard]. apply Bal_app; [bal_lit|].
+  apply Bal_app; [apply Bal_one; exact I|]. destruct sh; [bal_lit | bal_lit | apply Bal_nil].
+Qed.
+
+Lemma index_arms_Bal vs : forall i, Bal (index_arms vs i).
+Proof.
+  induction vs as [|arm r IH]; intros i; cbn [index_arms]; [apply Bal_nil|].
+  apply Bal_app; [apply Bal_tparen, make_pat_wildcard_Bal|].
+  apply Bal_app; [apply Bal_plain; intros t [<-|[<-|[<-|[]]]]; exact I | apply IH].
+Qed.
+
+Lemma to_index_fn_Bal vs : Bal (to_index_fn vs).
+Proof.
+  unfold to_index_fn. apply Bal_app; [bal_lit|]. apply Bal_app; [|bal_lit].
+  apply Bal_tbrace, Bal_app; [bal_lit|]. apply Bal_tbrace, Bal_app; [apply index_arms_Bal | bal_lit].
+Qed.
+
+Definition cfields_Bal (cs : list cmp_field) : Prop := Forall (fun c => cexpr_Bal (cf_expr c)) cs.
+
+Theorem r_cmp_enum_Bal op vs :
+  Forall (fun x => cfields_Bal (snd x)) vs -> Bal (r_cmp_enum op vs).
+Proof.
+  intros H.
+  assert (Bal (concat (map (fun x => tparen (make_pat [TI "Self"] "__self" (arm_of x) ++ comma ++
+                                              make_pat [TI "Self"] "__other" (arm_of x)) ++ [TP "=>"] ++
+                                      tbrace (r_cmp_fields op SKEnum (snd x))) vs))) as Harms.
+  { apply Bal_concat, Forall_map. eapply Forall_impl; [|exact H]. intros x Hx. cbn beta. unfold comma.
+    apply Bal_app; [apply Bal_tparen, Bal_app; [apply make_pat_Bal, Bal_one; exact I|];
+                    apply Bal_app; [apply Bal_one; exact I | apply make_pat_Bal, Bal_one; exact I]|].
+    apply Bal_app; [apply Bal_one; exact I|]. apply Bal_tbrace, r_cmp_fields_Bal, Hx. }
+  unfold r_cmp_enum. destruct op.
+  - apply Bal_app; [bal_lit|]. apply Bal_tbrace, Bal_app; [exact Harms|]. apply Bal_app; [bal_lit|].
+    apply Bal_app; [|bal_lit]. apply Bal_tbrace, Bal_app; [apply to_index_fn_Bal | bal_lit].
+  - apply Bal_app; [bal_lit|]. apply Bal_tbrace, Bal_app; [exact Harms|]. apply Bal_app; [bal_lit|].
+    apply Bal_app; [|bal_lit]. apply Bal_tbrace, Bal_app; [apply to_index_fn_Bal | bal_lit].
+  - apply Bal_nil.
+  - apply Bal_app; [bal_lit|]. apply Bal_tbrace, Bal_app; [exact Harms | bal_lit].
+  - apply Bal_app; [bal_lit|]. apply Bal_tbrace, Bal_app; [|bal_lit].
+    apply Bal_concat, Forall_map. eapply Forall_impl; [|exact H]. intros x Hx. cbn beta.
+    apply Bal_app; [apply make_pat_Bal, Bal_one; exact I|]. apply Bal_app; [apply Bal_one; exact I|].
+    apply Bal_tbrace, r_cmp_fields_Bal, Hx.
+Qed.
+
+Theorem r_eq_check_Bal sk x :
+  match snd x with QKey k => Bal k | _ => True end -> Bal (r_eq_check sk x).
+Proof.
+  intros H. unfold r_eq_check. destruct (snd x) as [| |k]; [apply Bal_nil | |];
+    (apply Bal_tbrace, Bal_app; [bal_lit|]; apply Bal_tparen, Bal_app; [bal_lit|]; apply Bal_tparen).
+  - apply Bal_place_of.
+  - apply Bal_apply_template; [exact H | apply Bal_place_of].
+Qed.
+
+(** ** Clone bodies *)
+Lemma core_path_Bal names : Bal (core_path names).
+Proof.
+  unfold core_path. apply Bal_cons_plain; [exact I|]. apply Bal_sep_by; [apply Bal_one; exact I|].
+  apply Forall_map, Forall_forall. intros n _. apply Bal_one. exact I.
+Qed.
+Lemma self_dot_Bal base m : Bal (self_dot base m).
+Proof. unfold self_dot. apply Bal_app; [apply Bal_plain; intros t [<-|[<-|[]]]; exact I | apply r_member_Bal]. Qed.
+Lemma Bal_term_by sep l : Bal sep -> Forall Bal l -> Bal (term_by sep l).
+Proof.
+  intros Hs H. unfold term_by. apply Bal_concat, Forall_map. eapply Forall_impl; [|exact H].
+  intros x Hx. apply Bal_app; assumption.
+Qed.
+Lemma ufcs_Bal t tr f args : Bal t -> Bal tr -> Forall Bal args -> Bal (ufcs t tr f args).
+Proof.
+  intros Ht Htr Ha. unfold ufcs. apply Bal_app; [apply Bal_one; exact I|]. apply Bal_app; [exact Ht|].
+  apply Bal_app; [apply Bal_one; exact I|]. apply Bal_app; [exact Htr|].
+  apply Bal_app; [apply Bal_plain; intros x [<-|[<-|[<-|[]]]]; exact I|].
+  apply Bal_tparen, Bal_sep_by; [apply Bal_one; exact I | exact Ha].
+Qed.
+
+Theorem r_clone_struct_Bal name sh fs : Bal (r_clone_struct name sh fs).
+Proof.
+  unfold r_clone_struct, clone_tr. apply Bal_app; [bal_lit|]. apply Bal_app.
+  - apply Bal_tbrace, Bal_app; [apply Bal_one; exact I|]. apply ctor_args_Bal, Forall_map, Forall_forall.
+    intros f _. apply ufcs_Bal; [apply r_ty_Bal_all | apply core_path_Bal|].
+    constructor; [|constructor]. apply Bal_cons_plain; [exact I | apply self_dot_Bal].
+  - apply Bal_app; [bal_lit|]. apply Bal_tbrace, Bal_term_by; [apply Bal_one; exact I|].
+    apply Forall_map, Forall_forall. intros f _. apply ufcs_Bal; [apply r_ty_Bal_all | apply core_path_Bal|].
+    constructor; [apply Bal_app; [bal_lit | apply self_dot_Bal]|]. constructor; [|constructor].
+    apply Bal_cons_plain; [exact I | apply self_dot_Bal].
+Qed.
+
+Theorem r_clone_enum_Bal vs : Bal (r_clone_enum vs).
+Proof.
+  unfold r_clone_enum, clone_tr. apply Bal_app; [bal_lit|]. apply Bal_app.
+  - apply Bal_tbrace, Bal_app; [unfold match_self; destruct vs; bal_lit|].
+    apply Bal_tbrace, Bal_term_by; [apply Bal_one; exact I|]. apply Forall_map, Forall_forall.
+    intros [[v sh] fs] _. apply Bal_app; [apply make_pat_Bal, Bal_one; exact I|].
+    apply Bal_app; [apply Bal_one; exact I|]. apply Bal_app; [bal_lit|]. apply Bal_app; [apply Bal_one; exact I|].
+    apply ctor_args_Bal, Forall_map, Forall_forall. intros f _.
+    apply ufcs_Bal; [apply r_ty_Bal_all | apply core_path_Bal|]. constructor; [apply Bal_one; exact I | constructor].
+  - apply Bal_app; [bal_lit|]. apply Bal_tbrace, Bal_app; [bal_lit|]. apply Bal_tbrace, Bal_app; [|bal_lit].
+    apply Bal_term_by; [apply Bal_one; exact I|]. apply Forall_map, Forall_forall. intros [[v sh] fs] _.
+    apply Bal_app; [apply Bal_tparen, Bal_app; [apply make_pat_Bal, Bal_one; exact I|];
+                    apply Bal_app; [apply Bal_one; exact I | apply make_pat_Bal, Bal_one; exact I]|].
+    apply Bal_app; [apply Bal_one; exact I|]. apply Bal_tbrace, Bal_term_by; [apply Bal_one; exact I|].
+    apply Forall_map, Forall_forall. intros f _. apply ufcs_Bal; [apply r_ty_Bal_all | apply core_path_Bal|].
+    constructor; [apply Bal_one; exact I|]. constructor; [apply Bal_one; exact I | constructor].
+Qed.
+
+(** ** Debug and Default pieces *)
+Theorem r_debug_expr_Bal d place : (forall f, Bal (place f)) -> Bal (r_debug_expr d place).
+Proof.
+  intros Hp. destruct d as [f|name sh fs]; cbn [r_debug_expr].
+  - apply Bal_app; [bal_lit|]. apply Bal_tparen, Bal_app; [apply Hp | bal_lit].
+  - apply Bal_app; [bal_lit|]. apply Bal_app; [apply Bal_one; exact I|].
+    apply Bal_app; [apply Bal_tparen, Bal_app; [bal_lit | apply Bal_tparen, Bal_one; exact I]|].
+    apply Bal_app; [|bal_lit]. apply Bal_concat, Forall_map, Forall_forall. intros f _.
+    apply Bal_app; [bal_lit|]. apply Bal_tparen, Bal_app; [|apply Hp].
+    destruct sh; try apply Bal_nil. apply Bal_app; [bal_lit|]. unfold comma.
+    apply Bal_app; [|apply Bal_one; exact I]. apply Bal_tparen.
+    destruct (fl_member f); [apply Bal_one; exact I | apply r_member_Bal].
+Qed.
+
+Theorem r_dvalue_Bal v : match v with DVInto _ e | DVExpr e => Bal e | DVDefault _ => True end -> Bal (r_dvalue v).
+Proof.
+  intros H. destruct v as [t e|e|t]; cbn [r_dvalue].
+  - apply Bal_app; [bal_lit|]. apply Bal_app; [apply r_ty_Bal_all|]. apply Bal_app; [bal_lit|]. apply Bal_tparen, H.
+  - exact H.
+  - apply ufcs_Bal; [apply r_ty_Bal_all | apply core_path_Bal | constructor].
+Qed.
